@@ -767,4 +767,52 @@ def vmpPipeline (P : PrimeSet) (n : Nat) (rows : List (Poly × Poly)) : List Int
   let l3 := laneSumK P.q3 (bbcH P) n (realNtt P n 3) (realIntt P n 3) rows
   (List.range n).map (fun i => bToZnx128Core P (l0.getD i 0) (l1.getD i 0) (l2.getD i 0) (l3.getD i 0))
 
+/-! ### convolution: the x2-block pack kernels (`poulpy-cpu-ref/src/ntt120/prim.rs`) -/
+
+/-- `ntt_pack_left_1blk_x2`, one residue: `(a % q) as u32`, high half `0` -/
+def packLeftK (q a : Nat) : Nat × Nat := (wu32 (a % q), 0)
+
+/-- `ntt_pairwise_pack_left_1blk_x2`, one residue: `(a % q + b % q)`, minus `q` if `≥ q` -/
+def pairwisePackLeftK (q a b : Nat) : Nat × Nat :=
+  let s := wu64 (a % q + b % q)
+  let s := if s ≥ q then subU64 s q else s
+  (wu32 s, 0)
+
+/-- `ntt_pairwise_pack_right_1blk_x2`, one `u32` entry: `a + b` (`u32` addition) -/
+def pairwisePackRightK (a b : Nat) : Nat := wu32 (a + b)
+
+/-- the seeded variant of the pairwise left pack (NOT the code): the lazy 64-bit sum split into halves -/
+def pairwisePackLeftLazyK (a b : Nat) : Nat × Nat := let s := wu64 (a + b); (wu32 s, s >>> 32)
+
+/-- `ntt_pack_left_1blk_x2(dst, a, row_count, row_stride, blk)` on flat slices (prime index = position mod 4) -/
+def packLeft1BlkX2 (P : PrimeSet) (a : Array Nat) (rowCount rowStride blk : Nat) : Outcome (List Nat) :=
+  if a.size < rowStride * (rowCount - 1) + 8 * blk + 8 then .panic "assert"
+  else .ok ((List.range rowCount).flatMap (fun row =>
+    (List.range 8).flatMap (fun e =>
+      let pr := packLeftK (P.qs.getD (e % 4) 1) (a.getD (row * rowStride + 8 * blk + e) 0)
+      [pr.1, pr.2])))
+
+/-- `ntt_pack_right_1blk_x2`: rows copied in reversed order -/
+def packRight1BlkX2 (a : Array Nat) (rowCount rowStride blk : Nat) : Outcome (List Nat) :=
+  if a.size < rowStride * (rowCount - 1) + 16 * blk + 16 then .panic "assert"
+  else .ok ((List.range rowCount).flatMap (fun row =>
+    (List.range 16).map (fun e => a.getD ((rowCount - 1 - row) * rowStride + 16 * blk + e) 0)))
+
+/-- `ntt_pairwise_pack_left_1blk_x2` -/
+def pairwisePackLeft1BlkX2 (P : PrimeSet) (a b : Array Nat) (rowCount rowStride blk : Nat) : Outcome (List Nat) :=
+  if a.size < rowStride * (rowCount - 1) + 8 * blk + 8 ∨ b.size < rowStride * (rowCount - 1) + 8 * blk + 8 then .panic "assert"
+  else .ok ((List.range rowCount).flatMap (fun row =>
+    (List.range 8).flatMap (fun e =>
+      let idx := row * rowStride + 8 * blk + e
+      let pr := pairwisePackLeftK (P.qs.getD (e % 4) 1) (a.getD idx 0) (b.getD idx 0)
+      [pr.1, pr.2])))
+
+/-- `ntt_pairwise_pack_right_1blk_x2`: entry-wise `u32` sums, rows reversed -/
+def pairwisePackRight1BlkX2 (a b : Array Nat) (rowCount rowStride blk : Nat) : Outcome (List Nat) :=
+  if a.size < rowStride * (rowCount - 1) + 16 * blk + 16 ∨ b.size < rowStride * (rowCount - 1) + 16 * blk + 16 then .panic "assert"
+  else .ok ((List.range rowCount).flatMap (fun row =>
+    (List.range 16).map (fun e =>
+      let idx := (rowCount - 1 - row) * rowStride + 16 * blk + e
+      pairwisePackRightK (a.getD idx 0) (b.getD idx 0))))
+
 end Ntt120
